@@ -45,10 +45,14 @@ theorem ctor_rbp_as_modelled : Generated.InfixTable.ctorRbp =
      ("Assignment", "bp - 1", "set,=,:="), ("PostfixAssign", "", "")] := by
   decide +kernel
 
+/-- the arm fix C06-02 adds (nil, written `()`): optional, so that the theorem holds before and after the fix -/
+def sentinelArm : List String × List (String × Bool) := (["SexpSentinel"], [("", true)])
+
 /-- LeftBindingPower has the arms and guards that `lbp` models (constants are read from the
-generated file, not compared here). -/
+generated file, not compared here); the arm for nil of fix C06-02 may be present or not — the
+model reads it from the generated file (`Table.lbpNull`). -/
 theorem lbp_arms_as_modelled :
-    Generated.InfixTable.lbpArms.map (fun a => (a.types, a.returns.map (fun r => (r.1, r.2.isSome)))) =
+    (Generated.InfixTable.lbpArms.map (fun a => (a.types, a.returns.map (fun r => (r.1, r.2.isSome))))).filter (· != sentinelArm) =
     [(["SexpInt", "SexpFloat"], [("", true)]), (["SexpBool"], [("", true)]), (["SexpStr"], [("", true)]),
      (["SexpChar", "SexpUint64"], [("", true)]),
      (["SexpSymbol"], [("x.name == \"if\"", true), ("found", false), ("x.isDot", true), ("", true)]),
@@ -71,6 +75,20 @@ theorem char_statement_fixed :
             (parseBlock documented [.sym "a", .other false "'c'"]) = true
     ∧ sameRes (expandBlock Table.generated [.sym "a", .other false "'c'"])
               (some [.sym "a", .other false "'c'"]) = true := by
+  decide +kernel
+
+/-! ### the defect repaired by fix C06-02 (proposed) -/
+
+/-- Without an arm for nil in LeftBindingPower, `{a ()}` (nil as a juxtaposed statement) is an error … -/
+theorem C06_counterexample_nil_statement :
+    expandBlock Table.legacy02 [.sym "a", .null] = none := by
+  decide +kernel
+
+/-- … and once the arm is there (`Table.generated.lbpNull = some 0`) the block has the two statements the
+grammar gives it. (Stated so that it holds on the tree before and after the fix.) -/
+theorem nil_statement_fixed :
+    (Table.generated.lbpNull != some 0 ||
+     sameRes (expandBlock Table.generated [.sym "a", .null]) (parseBlock documented [.sym "a", .null])) = true := by
   decide +kernel
 
 /-! ### statements of a block are expanded left to right
